@@ -17,3 +17,16 @@ def prove(module, scratch, timeout=900):
     text = p.stdout + p.stderr
     m = re.search(r'All (\d+) obligations? proved', text)
     return (bool(m), int(m.group(1)) if m else 0, text)
+
+
+def run_proof(ctx, module, theorems):
+    """Re-check a proof module inside a check; a failing proof is a defect of the SPECIFICATION (machinery), never a verdict about the code."""
+    import tlc
+    r = prove(module, ctx.scratch)
+    if r is None:
+        ctx.notes.append('tlapm not installed: %s not re-checked' % module)
+        return
+    ok, n, text = r
+    ctx.parts.append({'part': 'TLAPS.' + module, 'obligations_proved': n, 'all_proved': ok, 'theorems': theorems})
+    if not ok:
+        raise tlc.TLCError('TLAPS could not re-check %s.tla:\n%s' % (module, text[-1500:]))
